@@ -471,26 +471,32 @@ def applyVoidOption (convert : Bool) (params : List Param) : List Param :=
   | [p0] => if convert && isLoneVoid p0.type then [] else params
   | _ => params
 
+/-- one iteration of the parameter loop of `_parse_parameters`; the state is the parameters so far
+    and the template parameters abbreviated `auto` parameters stand for -/
+def paramsBody (rec : Core) (conceptOk : Bool) (st : List Param × List TemplateParam) :
+    M ((List Param × List TemplateParam) ⊕ (List Param × Bool × List TemplateParam)) := do
+  let params := st.1
+  let atParams := st.2
+  match (← tokenIf ["ELLIPSIS"]) with
+  | some _ => do
+    let _ ← nextTokenMustBe [")"]
+    pure (.inr (params, true, atParams))
+  | none => do
+    let (param, atType) ← rec.parseParameter none conceptOk ")"
+    let params := params ++ [param]
+    let atParams := match atType with
+      | some t => atParams ++ [TemplateParam.nonType t none none (some ((params.length : Int) - 1)) param.paramPack]
+      | none => atParams
+    let tok ← nextTokenMustBe [",", ")"]
+    if tok.value = ")" then pure (.inr (params, false, atParams)) else pure (.inl (params, atParams))
+
 /-- `_parse_parameters(concept_ok)` -/
 def parseParametersStep (F : Nat) (rec : Core) (conceptOk : Bool) :
     M (List Param × Bool × List TemplateParam) := do
   match (← tokenIf [")"]) with
   | some _ => pure ([], false, [])
   | none => do
-    let (params, vararg, atParams) ←
-      loopN F (([] : List Param), ([] : List TemplateParam)) (fun (params, atParams) => do
-        match (← tokenIf ["ELLIPSIS"]) with
-        | some _ => do
-          let _ ← nextTokenMustBe [")"]
-          pure (.inr (params, true, atParams))
-        | none => do
-          let (param, atType) ← rec.parseParameter none conceptOk ")"
-          let params := params ++ [param]
-          let atParams := match atType with
-            | some t => atParams ++ [TemplateParam.nonType t none none (some ((params.length : Int) - 1)) param.paramPack]
-            | none => atParams
-          let tok ← nextTokenMustBe [",", ")"]
-          if tok.value = ")" then pure (.inr (params, false, atParams)) else pure (.inl (params, atParams)))
+    let (params, vararg, atParams) ← loopN F (([] : List Param), ([] : List TemplateParam)) (paramsBody rec conceptOk)
     let convert ← getConvertVoid
     pure (applyVoidOption convert params, vararg, atParams)
 
